@@ -60,6 +60,21 @@ def run(ctx):
     for n in list(range(0, 4)) + [253, 254, 255]:
         cases.append(numeric.vwma_case(n, (1.0, 2.0), [(2.0, 1.0), (3.0, 0.0)], "ctor-boundary"))
         cases.append(numeric.conv_case([1.0] * n, 1.0, [2.0, 3.0], "ctor-boundary"))
+    # accepted instances never panic on valid streams: every method at several accepted lengths on finite streams full of signed
+    # zeros, ties and sign changes (orderings and searches that treat -0.0 and +0.0 inconsistently corrupt their state and then
+    # index out of range)
+    zr = rng.fork("zeros")
+    pool = [0.0, -0.0, 0.0, -0.0, 1.0, -1.0, 2.5, -2.5, 3.0, 5e-324, -5e-324]
+    for name in list(numeric.SCALAR) + list(select.SEL):
+        if name == "Integral0":
+            continue
+        for n in (2, 3, 4, 5, 6, 9):
+            for rep in range(2):
+                zs = [zr.choice(pool) for _ in range(90 if ctx.tier == "quick" else 400)]
+                if name in select.SEL:
+                    cases.append(select.scalar_sel(name, n, zr.choice(pool), zs, "zeros-and-ties"))
+                else:
+                    cases.append(numeric.scalar_case(name, n, zr.choice(pool), zs, "zeros-and-ties", with_spec=False))
     for c in cases:
         c.spec = None
         if hasattr(c, "_spec"):
@@ -76,7 +91,26 @@ def run(ctx):
             line = "text ma_init %d %d %016x %d %s" % (k, n, core.f2bits(1.5), len(xs), " ".join("%016x" % core.f2bits(x) for x in xs))
             c = Simple(line, "[]", "ma-init-all", exact=False, extra={"entry": "MA", "kind_index": k, "length": n})
             mcases.append(c)
-    impl, _ = ctx.run_suite("ma-constructor", mcases, HEADER, model=False, theorem="Properties/C10.v")
+    impl, _ = ctx.run_suite("ma-constructor", mcases, HEADER, model=False, theorem="Properties/C10.v (C10_ma_constructor_acceptance)")
+    # the acceptance table of the theorem, evaluated inside Coq: [ma_rejects] for every kind x length of the parameter type
+    kinds = "[KSMA; KWMA; KHMA; KRMA; KEMA; KDMA; KDEMA; KTMA; KTEMA; KWSMA; KSMM; KSWMA; KTRIMA; KLinReg; KVidya]"
+    term = ("map (fun kn : ma_kind * Z => if ma_rejects (pw := PW8) (MAcfg (fst kn) (snd kn)) then 1 else 0) "
+            "(list_prod %s (map Z.of_nat (seq 0 256)))" % kinds)
+    hdr = ("From Coq Require Import ZArith List. Import ListNotations. Open Scope Z_scope.\n"
+           "From Yata Require Import Base.Prelude Base.Num Core.Window Core.Strings Indicators.Common Proofs.Totality5.\n")
+    tab, terr = core.run_coq_cases(hdr, [term], ctx.work, per_shard=1, tag="ma_accept_table")
+    if terr or not tab or tab[0] is None or len(tab[0]) != 15 * 256:
+        ctx.broke("correspondence", "ma-constructor", "the acceptance table of C10_ma_constructor_acceptance could not be evaluated: %s" % (terr or tab)[:500])
+    else:
+        for c, io in zip(mcases, impl):
+            if not io or len(io) < 2 or io[1] == T_PANIC:
+                continue
+            k, n = c.extra["kind_index"], c.extra["length"]
+            rejected = tab[0][k * 256 + n] == 1
+            if (io[1] == T_ERR) != rejected:
+                ctx.fail_input(c.meta(), "MA kind %s length %d: the constructor %s, the documented acceptance set (C10_ma_constructor_acceptance) says %s"
+                               % (ind.MA_KINDS_BY_CODE[k], n, "returned Err" if io[1] == T_ERR else "returned an instance",
+                                  "rejected" if rejected else "accepted"), io)
     for c, io in zip(mcases, impl):
         if io and T_PANIC in io:
             ctx.fail_input(c.meta(), "MA kind %d length %d: %s panicked" % (c.extra["kind_index"], c.extra["length"],
